@@ -49,8 +49,28 @@ def plan(tier):
 def gen_case(rng: Rng, i: int, tier: str):
     r = rng.sub("k")
     if r.chance(0.06):
-        fx, pw = r.pick(hist.FIXTURE_BASES + [("github_14.7z", None), ("github_14_multi.7z", None), ("root_path_arcname.7z", None), ("symlink_2.7z", None)])
+        fx, pw = r.pick(hist.DECODABLE_FIXTURE_BASES + [("github_14.7z", None), ("github_14_multi.7z", None), ("root_path_arcname.7z", None), ("symlink_2.7z", None)])
         return {"fixture": fx, "open": r.pick(["stream", "path", "anon"]), "read": {"block": r.pick([4096, 32768, 1048576]), "chunk": r.pick([4096, 128000000])}}
+    rb = rng.sub("bcjtail")
+    if rb.chance(0.04):
+        # directed: one solid folder decoded through the alternative branch-converting decoder (X86 in front of a codec other than
+        # LZMA2), holding a continuous stream of convertible CALL/JMP instructions cut into members whose last ones are a few
+        # bytes long: decoder calls that end one to eight bytes before the end of the folder
+        seed_ = rb.randrange(1 << 30)
+        sizes = [rb.pick([1000, 4091, 4096, 4097]), rb.pick([0, 5, 10, 16]), rb.randint(1, 8)]
+        members, skip = [], 0
+        for k, ln in enumerate(sizes):
+            if ln == 0:
+                continue
+            members.append({"name": "bin/part%d.dat" % k, "kind": "file", "content": {"tex": "calls", "len": ln, "seed": seed_, "skip": skip},
+                            "mtime": None, "ctime": None, "atime": None, "attrs": None})
+            skip += ln
+        chain = rb.pick([[{"id": "X86"}, {"id": "LZMA"}], [{"id": "X86"}, {"id": "COPY"}], [{"id": "X86"}, {"id": "ZSTD"}], [{"id": "X86"}, {"id": "DEFLATE"}], [{"id": "X86"}, {"id": "BZIP2"}]])
+        layout = {"folders": [{"members": list(range(len(members))), "chain": chain}], "crc": rb.pick(["substream", "folder"]), "packcrc": False, "packpos": 0,
+                  "omit_nums": False, "dummy": 0, "dummy_tail": 0, "emptyfile_vector_always": False, "names_first": True, "header": "raw", "password": None,
+                  "iv_seed": 1, "no_substreams": False, "header_crc": True}
+        return {"members": members, "layout": layout, "open": rb.pick(["stream", "path", "anon"]),
+                "read": {"block": rb.pick([4096, 32768, 1048576]), "chunk": rb.pick([4096, 128000000])}}
     n = r.wpick([(1, 0), (2, 1), (3, 2), (3, 4), (2, 6), (1, 9)])
     members = []
     names = []
@@ -189,7 +209,7 @@ def run_case(case):
     if "fixture" in case:
         with open(os.path.join(REPO, "tests", "data", case["fixture"]), "rb") as f:
             image = f.read()
-        password = dict(hist.FIXTURE_BASES).get(case["fixture"])
+        password = dict(hist.DECODABLE_FIXTURE_BASES).get(case["fixture"])
         a = ref7z.read(image, password)
         if a.undecoded:
             res["extra"]["fixture_with_unsupported_coder_skipped"] = 1
